@@ -171,6 +171,8 @@ impl PriceLookup {
             // No commodity conversion, short-circuit out
             return PriceLookupCtx::default();
         };
+        // "last price" has no upper bound (an entry at `Timestamp::MAX` is a price, too)
+        let last_price = matches!(self, PriceLookup::LastPriceDbEntry);
         let lookup_timestamp = match self {
             PriceLookup::AtTheTimeOfTxn => None,
             PriceLookup::LastPriceDbEntry => Some(Timestamp::MAX.to_zoned(TimeZone::UTC)),
@@ -197,7 +199,7 @@ impl PriceLookup {
                     .filter(|e| {
                         used_commodities.contains(&e.base_commodity)
                             && e.eq_commodity == in_commodity
-                            && e.timestamp < lookup_timestamp
+                            && (last_price || e.timestamp < lookup_timestamp)
                     })
                     .map(|e| (e.base_commodity.clone(), (e.timestamp.clone(), e.eq_amount)))
                     .collect(),
